@@ -377,6 +377,56 @@ def damage_line(rng, line, base_svma):
     flat = [str(n)] + [x for sct in secs for x in sct]
     return head + " A none B " + " ".join(flat), tag
 
+def range_grid(rng, tier):
+    """every section of a PE image and of a DWARF image x a fixed list of inconsistent address ranges (the random
+    stream above draws from the same kinds; seeded change C14-6 - `range.end - base_svma` unchecked - needs a section
+    that starts at or above the image base and ends below it): module creation, add and a few unwinds, one unwinder per
+    variant; judged for own-code panics and hangs"""
+    out = []
+    srcs = [C03.generate(Rng(7), "quick")[0], C01.generate(Rng(7), "quick")[0]]
+    for name, src in srcs:
+        ml = [l for l in src.lines if l.startswith("mod ")][0]
+        unwinds = [l for l in src.lines if l.split(" ", 1)[0] == "unwind"][:3] or [l for l in src.lines if l.split(" ", 1)[0] == "trace"][:3]
+        mems = [l for l in src.lines if l.startswith("mem ")]
+        a_part, b_part = ml.split(" B ", 1)
+        head = a_part.split(" A ", 1)[0].split(" ")
+        B = int(head[5], 16)
+        bt = b_part.split(" ")
+        n = int(bt[0])
+        secs = [bt[1 + 4 * k: 5 + 4 * k] for k in range(n)]
+        s = Script.__new__(Script)
+        s.lines = [src.lines[0]]; s.tags = {}; s.meta = {}; s.arch = src.arch
+        s.lines += mems
+        s.add("newcache C")
+        v = 0
+        for k in range(n):
+            if secs[k][2] == "-":
+                continue
+            lo, hi = int(secs[k][2], 16), int(secs[k][3], 16)
+            ln_ = hi - lo
+            variants = [("below-1", B - 1, B - 1 + ln_), ("below-page", B - 0x1000, B - 0x1000 + ln_), ("across-base", B + 0x1000, B - 0x10),
+                        ("across-base-0", B, B - 1), ("empty-at-base", B, B), ("end-before-start", hi, lo), ("to-max", lo, M64),
+                        ("from-zero", 0, hi), ("empty", lo, lo), ("max-max", M64, M64), ("wrap", M64 - 1, 0),
+                        ("longer", lo, hi + 0x100000), ("shorter", lo, lo + max(0, ln_ // 2)), ("far", lo + (1 << 32), hi + (1 << 32))]
+            for kind, lo2, hi2 in variants:
+                if B == 0 and kind.startswith(("below", "across")):
+                    continue
+                sc = [list(x) for x in secs]
+                sc[k][2], sc[k][3] = hx(lo2 & M64), hx(hi2 & M64)
+                flat = [str(n)] + [x for sct in sc for x in sct]
+                h2 = list(head); h2[1] = "M%d" % v
+                tag = "%s:%s" % (secs[k][0], kind)
+                s.add(" ".join(h2) + " A none B " + " ".join(flat), tag="create:range-grid:" + tag)
+                s.add("new U%d" % v); s.add("add U%d M%d" % (v, v), tag="add")
+                for ul in unwinds:
+                    t = ul.split(" ")
+                    t[1], t[2] = "U%d" % v, "C"
+                    s.add(" ".join(t), tag="unwind:range-grid:" + tag)
+                v += 1
+        s.nomodel = True
+        out.append(("range-grid-%s" % name, s))
+    return out
+
 def bytes_stream(rng, tier):
     out = []
     srcs = []
@@ -685,7 +735,10 @@ def generate(rng, tier):
     for w in range(4 if tier == "quick" else 40):
         nm, s = suites.dwarf_world(rng, "x86" if w % 2 == 0 else "a64", nmods=3, nf=3, nprobes=30, policy="may" if w % 4 < 2 else "must")
         out.append(("world-%s-%d" % (nm, w), s))
-    return out + macho_structural(rng, tier) + macho_opcodes(rng, tier) + bytes_stream(rng, tier) + macho_ranges(rng, tier) + analysis_stream(rng, tier)
+    for arch in ("x86", "a64"):
+        nm, s = suites.empty_fde_world(rng, arch, "may" if arch == "x86" else "must")
+        out.append((nm, s))
+    return out + macho_structural(rng, tier) + macho_opcodes(rng, tier) + bytes_stream(rng, tier) + range_grid(rng, tier) + macho_ranges(rng, tier) + analysis_stream(rng, tier)
 
 OWN = re.compile(r"panic own\b")
 def judge(script, impl):
